@@ -10,7 +10,6 @@ The facts are decided on what the code computes, not on how it is spelled:
   events of a path-enumerating symbolic execution (sa/symx.py), in which locals and hoisted sub-expressions disappear.
 """
 import ast
-import copy
 import re
 
 from ..src import walk, calls, call_name, dotted, const, loc, unparse, norm, AnchorError, ExtractError, last_attr, parent
@@ -91,12 +90,17 @@ def _expand(fn, expr, depth=6, _defs=None):
 
         def visit_Name(self, n):
             if isinstance(n.ctx, ast.Load) and self.d > 0 and defs.get(n.id) is not None and len(defs[n.id]) == 1:
-                return T(self.d - 1).visit(copy.deepcopy(defs[n.id][0]))
+                return T(self.d - 1).visit(_clone(defs[n.id][0]))
             return n
 
         def visit_Lambda(self, n):
             return n
-    return T(depth).visit(copy.deepcopy(expr))
+    return T(depth).visit(_clone(expr))
+
+
+def _clone(expr):
+    """a fresh copy of an expression (the parsed trees carry parent links, which a deepcopy would follow)"""
+    return ast.parse(unparse(expr), mode="eval").body
 
 
 def _atom(test):
@@ -865,7 +869,7 @@ def run(repo, chk):
         ev = make({"cls": _Opq("cls"), "func": x}, owner="Comparison")
         return _nm(_run_concrete("Comparison.parse", lambda: ev.run(pf.body)))
     wantp = {"np.equal": "cls.eq", "np.not_equal": "cls.ne", "np.greater": "cls.gt", "np.less": "cls.lt", "np.greater_equal": "cls.ge", "np.less_equal": "cls.le"}
-    pairs = {k: parse(_Opq(k)) for k in wantp}
+    pairs = {k: parse(Obj(k, {}, cls="numpy.ufunc")) for k in wantp}
     chk.expect(all(pairs.get(k) == v for k, v in wantp.items()), "R-C05-3", "Comparison.parse maps each function / keyword list to its own member", loc(pf), expected=wantp, found=pairs)
     # keyword lists: above/after -> gt ; below/before -> lt
     for kw, member in (("'above'", "cls.gt"), ("'below'", "cls.lt"), ("'>='", "cls.ge"), ("'<='", "cls.le")):
@@ -963,7 +967,7 @@ def run(repo, chk):
     guards = []
     for n in walk(tle):
         if isinstance(n, ast.Assign) and any(isinstance(t_, ast.Attribute) and t_.attr == "_backtrack" and unparse(t_.value) == "self" for t_ in n.targets) \
-                and not (const(n.value, None) == 0 and const(n.value, None) is not None):
+                and const(n.value, "?") != 0:
             child, p_ = n, parent(n)
             while p_ is not None and p_ is not tle:
                 if isinstance(p_, ast.If):
@@ -975,26 +979,28 @@ def run(repo, chk):
         raise ExtractError("TankLevelCondition.evaluate: threshold-crossing test not found")
     own_state = {a.attr for a in walk(tle) if isinstance(a, ast.Attribute) and isinstance(a.ctx, ast.Store) and unparse(a.value) == "self"}
 
-    def from_tank(expr, seen=()):
-        """does the value derive (on some path) from the tank's _prev_head?"""
+    def reaches(expr, leaf, seen=()):
+        """does the value derive (through the definitions of the locals it mentions, on some path) from a node satisfying leaf()?"""
         for x in ast.walk(expr):
-            if isinstance(x, ast.Attribute) and x.attr == "_prev_head":
-                return True
-            if isinstance(x, ast.Constant) and x.value == "_prev_head":
+            if leaf(x):
                 return True
             if isinstance(x, ast.Name) and x.id not in seen:
                 for a in walk(tle):
-                    if isinstance(a, ast.Assign) and any(isinstance(t_, ast.Name) and t_.id == x.id for t_ in a.targets) and from_tank(a.value, seen + (x.id,)):
+                    if isinstance(a, ast.Assign) and any(isinstance(t_, ast.Name) and t_.id == x.id for t_ in a.targets) and reaches(a.value, leaf, seen + (x.id,)):
                         return True
         return False
+
+    def tank_leaf(x):
+        return (isinstance(x, ast.Attribute) and x.attr == "_prev_head") or (isinstance(x, ast.Constant) and x.value == "_prev_head")
+
+    def memo_leaf(x):
+        return isinstance(x, ast.Attribute) and unparse(x.value) == "self" and x.attr in own_state
     okp, found = True, []
-    for call_, if_ in guards[:1] if len({unparse(c) for c, i in guards}) == 1 else guards:
+    for call_, if_ in guards:
         prev_expr, _d = _strip_round(call_.args[0])
-        if isinstance(prev_expr, ast.Attribute) and unparse(prev_expr.value) == "self" and prev_expr.attr in own_state:
-            okp = False
-        elif not from_tank(prev_expr):
-            okp = okp and not any(isinstance(x, ast.Attribute) and unparse(x.value) == "self" and x.attr in own_state for x in ast.walk(prev_expr)) and False
-        found.append(unparse(prev_expr))
+        okp = okp and (reaches(prev_expr, tank_leaf) or not reaches(prev_expr, memo_leaf))
+        if unparse(prev_expr) not in found:
+            found.append(unparse(prev_expr))
     chk.expect(okp, "R-C05-6", "the 'value at the last accepted step' a tank-level condition compares with comes from the tank, not from a field evaluate() overwrites", loc(tle, guards[0][1]),
                "evaluate() sets self._last_value on every call: the second control that shares the condition object (the simulator itself pairs every setting control with a "
                "status control on the SAME condition) sees 'already beyond the threshold' and gets no partial step", expected="derived from tank._prev_head", found=found)
@@ -1101,7 +1107,10 @@ def _tracker_update_facts(upf):
     T = "subject.target()"
 
     def canon(s):
-        s = s.replace("(%s[0], %s[1])" % (T, T), T).replace("*" + T, "%s[0], %s[1]" % (T, T))
+        pair = "(%s[0], %s[1])" % (T, T)              # obj, attr = subject.target() ... (obj, attr)
+        s = s.replace("*" + T, "%s[0], %s[1]" % (T, T)).replace("[" + pair + "]", "[" + T + "]")
+        if s == pair:
+            s = T
         return s.replace(" ", "")
     cur = canon("getattr(%s[0], %s[1])" % (T, T))
     seen, verdicts = [], []
@@ -1198,7 +1207,10 @@ def _conditional_control_facts(repo, ccf):
 
 
 WITNESSES = [
-    dict(name="isolated-junction-pressure-from-elevation", file="wntr/sim/hydraulics.py", old="            node._pressure = 0\n", new="            node._pressure = node._head - node.elevation\n", rule="R-C05-7"),
+    # (the isolated head is the elevation since the datum fix, so `node._head - node.elevation` is 0 again: that edit is now the silent variant below)
+    dict(name="isolated-junction-pressure-is-its-head", file="wntr/sim/hydraulics.py", old="            node._pressure = 0\n", new="            node._pressure = node._head\n", rule="R-C05-7"),
+    dict(name="isolated-junction-pressure-not-reported-as-zero", file="wntr/sim/hydraulics.py", old="            node_res['pressure'][name].append(0.0)\n        else:", new="            node_res['pressure'][name].append(node.head)\n        else:", rule="R-C05-7"),
+    dict(name="isolated-junction-pressure-head-minus-elevation", file="wntr/sim/hydraulics.py", old="            node._pressure = 0\n", new="            node._pressure = node._head - node.elevation\n", silent=True),
     dict(name="update-condition-keeps-old-type", file=CTRL, old="        super().update_condition(condition)\n        self._control_type = self._control_type_of(condition)\n", new="        super().update_condition(condition)\n", rule="R-C05-5"),
     dict(name="tank-condition-compares-with-own-memo", file=CTRL, old="        if state and not relation(np.round(last_value,10), np.round(thresh_value,10)):", new="        if state and not relation(np.round(self._last_value,10), np.round(thresh_value,10)):", rule="R-C05-6"),
     dict(name="presolve-priority-before-time", file=CORE, old="        presolve_controls_to_run.sort(key=lambda i: i[1], reverse=True)\n", new="        presolve_controls_to_run.sort(key=lambda i: (i[0]._priority, -i[1]))\n", rule="R-C05-4"),
